@@ -42,6 +42,7 @@ type gateCM struct {
 	failHist                    bool // History() returns an error (fatal for syncLoop)
 	ingestShut                  bool
 	ingestInside, ingestEntered int
+	failIngest                  bool // AddBlocks returns an error
 }
 
 func newGateCM(cm *chain.Manager, subOf func(int) int) *gateCM {
@@ -58,8 +59,14 @@ func fakeID(cli, rpc int) (id types.BlockID) {
 }
 
 func (g *gateCM) BlocksForHistory(history []types.BlockID, max uint64) ([]types.Block, uint64, error) {
+	// the harness's own requests carry the caller in a fake first id (0xC1, client, rpc, then
+	// zeros); a request of a real sync round carries real block ids and is passed on unchanged
 	cli := -1
-	if len(history) > 0 && history[0][0] == 0xC1 {
+	marked := len(history) > 0 && history[0][0] == 0xC1
+	for i := 6; marked && i < len(history[0]); i++ {
+		marked = history[0][i] == 0
+	}
+	if marked {
 		cli = int(history[0][1])<<8 | int(history[0][2])
 	}
 	sub := -1
@@ -94,7 +101,10 @@ func (g *gateCM) BlocksForHistory(history []types.BlockID, max uint64) ([]types.
 	g.perSub[sub]--
 	g.cond.Broadcast()
 	g.mu.Unlock()
-	return g.Manager.BlocksForHistory(history[1:], max)
+	if marked {
+		history = history[1:]
+	}
+	return g.Manager.BlocksForHistory(history, max)
 }
 
 // the block-ingestion side (AddBlocks / AddValidatedV2Blocks, called by a sync round): calls are
@@ -117,6 +127,12 @@ func (g *gateCM) ingest() func() {
 
 func (g *gateCM) AddBlocks(blocks []types.Block) error {
 	defer g.ingest()()
+	g.mu.Lock()
+	fail := g.failIngest
+	g.mu.Unlock()
+	if fail {
+		return fmt.Errorf("store failure")
+	}
 	return g.Manager.AddBlocks(blocks)
 }
 
